@@ -31,7 +31,8 @@ def gen_cases(chk, n, rules=None, families=None, label='count', tweak=None):
             e = cd.gen_tinyvote(rng, o['precision']) if fam == 'tinyvote' else cd.gen_election(rng, family=fam)
         if o['rule'] == 'mpls':
             k = rng.random()
-            if k < 0.35: e = cd.gen_writein_election(rng)
+            if e['wd'] and k < 0.7: cd.add_undeclared(rng, e)       # withdrawn candidates that are also undeclared write-ins
+            elif k < 0.35: e = cd.gen_writein_election(rng)
             elif k < 0.6: cd.add_undeclared(rng, e)
         if o['rule'] in ('meek', 'warren') and rng.random() < 0.25: cd.add_equal_ranks(rng, e)
         if tweak: tweak(rng, e, o)
